@@ -261,7 +261,7 @@ Lemma primary_json : forall ks,
   map f_json (filter f_primary (map (fun k => of_ufield (k_def k)) ks))
   = map uf_name (filter is_primary (map k_def ks)).
 Proof.
-  induction ks as [|[[n [pt k|nm|nm|nm|p f t|tn k|i|i|fs|fs|os] r o] s] ks IH]; [reflexivity| | | | | | | | | | |]; cbn [map filter k_def];
+  induction ks as [|[[n [pt k|nm|nm|nm|p f t|tn k|i|i|fs|fs|os|tk tfs] r o] s] ks IH]; [reflexivity| | | | | | | | | | | |]; cbn [map filter k_def];
     try exact IH.
   cbn [of_ufield uf_kind f_primary is_primary uf_name]. destruct p; cbn [map f_json]; [f_equal|]; exact IH.
 Qed.
